@@ -18,8 +18,9 @@ META = {
              "combinations of extreme operand palettes {0,1,127,128,255} x {-128,-1,0,1,127} x zero-point modes, full-range and "
              "reduced-range random operands, shapes around mr/nr/K-tile/kc boundaries, 5 storage layouts, prepacked A/B, the "
              "vector-matrix paths, beta in {0,1}; outputs are compared exactly inside Coq; may_saturate() read from the executor "
-             "decides which theorem applies. Per-ISA instruction semantics are modelled, not proved; the operators built on the "
-             "kernels (MatMulInteger, ConvInteger, DynamicQuantizeLinear) are not run by this check."),
+             "decides which theorem applies. Per-ISA instruction semantics are modelled, not proved; rten::ops::dynamic_quantize_linear::<u8> is run on "
+             "10 input distributions (incl. huge, tiny, denormal, zero-range) and its own outputs are checked in exact integer "
+             "arithmetic against |dequantize(y) - x| <= scale; MatMulInteger / ConvInteger are not run by this check."),
     "note": ("Trusted: Coq kernel; the correspondence sample; vpmaddubsw/vpmaddwd/vpdpbusd semantics (hand model: sat16 pair sums, "
              "VNNI exact); the AVX-512 non-VNNI path cannot be selected on this machine. Findings fixed on branch verif-gemm: F51 "
              "(int8 packing used the first panel's zero points for every full panel), F52 (x86 int8 kernels ignored the zero points "
@@ -31,6 +32,7 @@ META = {
 }
 GROUP = "gemm"
 REQ = "From RV Require Import Prelude.\nFrom Gemm Require Import GemmModel Int8 ModelC17.\nOpen Scope N_scope."
+REQDQ = "From RV Require Import Prelude.\nFrom Gemm Require Import ModelC17dq.\nOpen Scope N_scope."
 THEOREMS = ["C17_zero_point_algebra", "C17_padded_zero_point_algebra", "C17_no_saturation_reduced_range",
             "C17_i32_no_overflow", "C17_wrapping_is_harmless", "C17_kernel_element_exact", "C17_integer_gemm_driver",
             "C17_saturation_witness", "C17_dynamic_quantize_within_step_partial", "C17_F51_old_indexing_refuted",
@@ -45,15 +47,26 @@ def main(ctx):
                 "column stride, unit row stride, both non-unit), prepacked A/B, beta in {0,1} with the output pre-filled; "
                 "non-trivial = output non-empty")
     ctx.trusted += ["vpmaddubsw / vpmaddwd / vpdpbusd instruction semantics: hand model (sat16 pair sums; VNNI exact)",
-                    "operators built on the kernels (MatMulInteger, ConvInteger, DynamicQuantizeLinear) are not executed here"]
+                    "MatMulInteger / ConvInteger operators are not executed here (only the GEMM they call, and rten::ops::dynamic_quantize_linear)"]
     ctx.audit(GROUP)
     failed = ctx.prove(GROUP, "Props_C17", THEOREMS)
     bindir = ctx.harness(GROUP, profile="release", bins=["c17"])
-    cases = ctx.gen_exec(bindir, "c17", int(os.environ.get('VERIF_N', ctx.n(60, 500))), inputs=ctx.replay_inputs())
-    shard = max(4, -(-len(cases) // vf.NCPU))
+    rep = ctx.replay_inputs()
+    rep_i = [l for l in rep if not l.startswith("D ")] if rep else None
+    rep_d = [l for l in rep if l.startswith("D ")] if rep else None
+    cases = ctx.gen_exec(bindir, "c17", int(os.environ.get('VERIF_N', ctx.n(60, 500))), inputs=rep_i) if (not rep or rep_i) else []
+    shard = max(4, -(-max(len(cases), 1) // vf.NCPU))
     # Alarm on the property only: exactness wherever the statement demands it.
-    ctx.correspond("int8-gemm-exact", GROUP, REQ, cases, show="show", agree="always", prop_ok="prop_ok", shard=shard,
+    if cases:
+      ctx.correspond("int8-gemm-exact", GROUP, REQ, cases, show="show", agree="always", prop_ok="prop_ok", shard=shard,
                    fn_name="Gemm.Int8.dot_zp vs GemmExecutor<u8,i8,i32> output")
+    # DynamicQuantizeLinear -> dequantize within one step: the operator's own outputs (bit patterns of
+    # x and scale, zero point, quantized values) are checked in exact integer arithmetic.
+    if (not rep or rep_d) and (os.environ.get('VERIF_FAST') != '1' or os.environ.get('VERIF_DQ') == '1'):
+        bindir2 = ctx.harness(GROUP, profile="release", features="ops", bins=["c17dq"])
+        dq = ctx.gen_exec(bindir2, "c17dq", ctx.n(60, 300), inputs=rep_d)
+        ctx.correspond("dynamic-quantize-within-one-step", GROUP, REQDQ, dq, show="show", agree="always", prop_ok="prop_ok",
+                       shard=max(4, -(-len(dq) // vf.NCPU)), fn_name="rten::ops::dynamic_quantize_linear::<u8> outputs")
     if os.environ.get('VERIF_FAST') == '1':
         if failed and not ctx.violations:
             ctx.proof_broken(failed, 'all correspondence cases of this run')
